@@ -397,3 +397,242 @@ impl Socks5UdpCodec {
         Ok(())
     }
 }
+
+//@@ octo-squirrel/src/protocol/trojan.rs:1-1  const CR_LF  sha=f2a5803f82cdf8c3
+pub const trojan__CR_LF: [u8; 2] = [b'\r', b'\n'];
+
+//@@ octo-squirrel-server/src/server/template.rs:39-43  mod message / enum InboundIn  sha=900b92278fa20e17
+pub enum InboundIn {
+        ConnectTcp(BytesMut, Address),
+        RelayTcp(BytesMut),
+        RelayUdp(BytesMut, Address),
+    }
+
+//@@ octo-squirrel-server/src/server/template.rs:71-74  mod message / enum OutboundIn  sha=8f4f430e0a7dd220
+pub enum OutboundIn {
+        Tcp(BytesMut),
+        Udp((BytesMut, SocketAddr)),
+    }
+
+//@@ octo-squirrel-server/src/server/trojan.rs:21-25  enum CodecState  sha=52f8677631f80f4f
+enum tsrv__CodecState {
+    Header,
+    Tcp,
+    Udp,
+}
+
+//@@ octo-squirrel-server/src/server/trojan.rs:34-37  struct ServerCodec  sha=61ce21a1ab78a528
+pub struct ServerCodec {
+    key: [u8; 28],
+    state: tsrv__CodecState,
+}
+
+//@@ octo-squirrel-server/src/server/trojan.rs:39-58  impl ServerCodec  sha=cfdf21128a6c52d3
+impl ServerCodec {
+    fn decode_packet(&mut self, src: &mut BytesMut) -> Result<Option<InboundIn>, anyhow::Error> {
+        // address | length | CRLF | payload: wait until the whole frame is buffered
+        if src.remaining() < 2 {
+            return Ok(None);
+        }
+        let addr_len = address__try_decode_at(src, 0)?;
+        if src.remaining() < addr_len + 2 + trojan__CR_LF.len() {
+            return Ok(None);
+        }
+        let len = u16::v_from_be_bytes([src[addr_len], src[addr_len + 1]]) as usize;
+        if src.remaining() < addr_len + 2 + trojan__CR_LF.len() + len {
+            return Ok(None);
+        }
+        let peer_addr = address__decode(src)?;
+        let len = src.get_u16();
+        src.advance(trojan__CR_LF.len());
+        Ok(Some(InboundIn::RelayUdp(src.split_to(len as usize), peer_addr)))
+    }
+}
+
+//@@ octo-squirrel-server/src/server/trojan.rs:60-110  impl Decoder for ServerCodec  sha=e5771ace6120efe9
+impl ServerCodec {
+
+    fn decode(&mut self, src: &mut BytesMut) -> Result<Option<InboundIn>, anyhow::Error> {
+        if !src.has_remaining() {
+            return Ok(None);
+        }
+        match self.state {
+            tsrv__CodecState::Header => {
+                if src.remaining() < 61 || src.remaining() < 59 + address__try_decode_at(src, 59)? + trojan__CR_LF.len() {
+                    return Ok(None);
+                }
+                if src[56] != b'\r' || !src[..56].is_ascii() {
+                    return Err(verif_err());
+                }
+                let key = src.split_to(56);
+                let key = hex__decode(unsafe { str::from_utf8_unchecked(&key) })?;
+                if self.key != key[..self.key.len()] {
+                    return Err(verif_err())
+                }
+                src.advance(trojan__CR_LF.len());
+                let command = Socks5CommandType::new(src.get_u8())?;
+                let address = address__decode(src)?;
+                src.advance(trojan__CR_LF.len());
+                match command {
+                    Socks5CommandType::Connect => {
+                        self.state = tsrv__CodecState::Tcp;
+                        let remaining = src.remaining();
+                        Ok(Some(InboundIn::ConnectTcp(src.split_to(remaining), address)))
+                    }
+                    Socks5CommandType::UdpAssociate => {
+                        self.state = tsrv__CodecState::Udp;
+                        self.decode_packet(src)
+                    }
+                    _ => return Err(verif_err()),
+                }
+            }
+            tsrv__CodecState::Tcp => {
+                if src.is_empty() {
+                    Ok(None)
+                } else {
+                    let len = src.len();
+                    Ok(Some(InboundIn::RelayTcp(src.split_to(len))))
+                }
+            }
+            tsrv__CodecState::Udp => self.decode_packet(src),
+        }
+    }
+}
+
+//@@ octo-squirrel-server/src/server/trojan.rs:112-130  impl Encoder for ServerCodec  sha=527bce550b7dfbfa
+impl ServerCodec {
+
+    fn encode(&mut self, item: OutboundIn, dst: &mut BytesMut) -> Result<(), anyhow::Error> {
+        match item {
+            OutboundIn::Tcp(item) => {
+                dst.extend_from_slice(&item);
+                Ok(())
+            }
+            OutboundIn::Udp((content, addr)) => {
+                address__encode(&addr.into(), dst);
+                dst.put_u16(content.len() as u16);
+                dst.extend_from_slice(&trojan__CR_LF);
+                dst.extend_from_slice(&content);
+                Ok(())
+            }
+        }
+    }
+}
+
+//@@ octo-squirrel-client/src/client/trojan.rs:1-4  enum CodecState  sha=b38d7a0909ffd338
+enum tcli__CodecState {
+    Header,
+    Body,
+}
+
+//@@ octo-squirrel-client/src/client/trojan.rs:25-30  mod tcp / struct ClientCodec  sha=b1cc0c200a7a04e0
+pub struct ttcp__ClientCodec {
+        key: [u8; 56],
+        command: u8,
+        address: Address,
+        status: tcli__CodecState,
+    }
+
+//@@ octo-squirrel-client/src/client/trojan.rs:43-58  mod tcp / impl Encoder for ClientCodec  sha=d9c731f67d8aa081
+impl ttcp__ClientCodec {
+
+        fn encode(&mut self, item: BytesMut, dst: &mut BytesMut) -> Result<(), anyhow::Error> {
+            if matches!(self.status, tcli__CodecState::Header) {
+                dst.extend_from_slice(&self.key);
+                dst.extend_from_slice(&trojan__CR_LF);
+                dst.put_u8(self.command);
+                address__encode(&self.address, dst);
+                dst.extend_from_slice(&trojan__CR_LF);
+                self.status = tcli__CodecState::Body;
+            }
+            dst.extend_from_slice(&item);
+            Ok(())
+        }
+    }
+
+//@@ octo-squirrel-client/src/client/trojan.rs:60-73  mod tcp / impl Decoder for ClientCodec  sha=553984c2c188731e
+impl ttcp__ClientCodec {
+
+        fn decode(&mut self, src: &mut BytesMut) -> Result<Option<BytesMut>, anyhow::Error> {
+            if !src.is_empty() {
+                let len = src.len();
+                Ok(Some(src.split_to(len)))
+            } else {
+                Ok(None)
+            }
+        }
+    }
+
+//@@ octo-squirrel-client/src/client/trojan.rs:105-107  mod udp / fn new_key  sha=b4c4ac410dcf9fd1
+fn tudp__new_key(sender: SocketAddr, verif_arg2: &Address) -> SocketAddr {
+        sender
+    }
+
+//@@ octo-squirrel-client/src/client/trojan.rs:131-134  mod udp / fn to_outbound_send  sha=9001b14d01abfe2d
+fn tudp__to_outbound_send(item: DatagramPacket, verif_arg2: SocketAddr) -> DatagramPacket {
+        let (content, target) = item;
+        (content, target)
+    }
+
+//@@ octo-squirrel-client/src/client/trojan.rs:136-138  mod udp / fn to_inbound_recv  sha=692379f1eb5303e0
+fn tudp__to_inbound_recv(item: DatagramPacket, verif_arg2: &Address, sender: SocketAddr) -> (DatagramPacket, SocketAddr) {
+        (item, sender)
+    }
+
+//@@ octo-squirrel-client/src/client/trojan.rs:140-145  mod udp / struct ClientCodec  sha=b1cc0c200a7a04e0
+pub struct tudp__ClientCodec {
+        key: [u8; 56],
+        command: u8,
+        address: Address,
+        status: tcli__CodecState,
+    }
+
+//@@ octo-squirrel-client/src/client/trojan.rs:158-178  mod udp / impl Encoder for ClientCodec  sha=36529651bfce168d
+impl tudp__ClientCodec {
+
+        fn encode(&mut self, item: DatagramPacket, dst: &mut BytesMut) -> Result<(), anyhow::Error> {
+            if matches!(self.status, tcli__CodecState::Header) {
+                dst.extend_from_slice(&self.key);
+                dst.extend_from_slice(&trojan__CR_LF);
+                dst.put_u8(self.command);
+                address__encode(&self.address, dst);
+                dst.extend_from_slice(&trojan__CR_LF);
+                self.status = tcli__CodecState::Body;
+            }
+            let buffer = &mut BytesMut::new();
+            address__encode(&item.1, buffer);
+            buffer.put_u16(item.0.len() as u16);
+            buffer.extend_from_slice(&trojan__CR_LF);
+            buffer.extend_from_slice(&item.0);
+            dst.extend_from_slice(buffer);
+            Ok(())
+        }
+    }
+
+//@@ octo-squirrel-client/src/client/trojan.rs:180-208  mod udp / impl Decoder for ClientCodec  sha=7976b3a2cbb88874
+impl tudp__ClientCodec {
+
+        fn decode(&mut self, src: &mut BytesMut) -> Result<Option<DatagramPacket>, anyhow::Error> {
+            if !src.is_empty() {
+                // address | length | CRLF | payload: wait until the whole frame is buffered
+                if src.remaining() < 2 {
+                    return Ok(None);
+                }
+                let addr_len = address__try_decode_at(src, 0)?;
+                if src.remaining() < addr_len + 2 + trojan__CR_LF.len() {
+                    return Ok(None);
+                }
+                let len = u16::v_from_be_bytes([src[addr_len], src[addr_len + 1]]) as usize;
+                if src.remaining() < addr_len + 2 + trojan__CR_LF.len() + len {
+                    return Ok(None);
+                }
+                let addr = address__decode(src)?;
+                let len = src.get_u16();
+                src.advance(trojan__CR_LF.len());
+                let content = src.split_to(len as usize);
+                Ok(Some((content, addr)))
+            } else {
+                Ok(None)
+            }
+        }
+    }
